@@ -3,6 +3,7 @@ package main
 import (
 	"encoding/json"
 	"fmt"
+	"net"
 	"sort"
 	"strings"
 
@@ -147,7 +148,33 @@ func (t *Topo) Snapshot() ConfSet {
 
 // mutate changes the configuration (for reload operations). Returns a description.
 func (t *Topo) mutate(c *core.Choices) string {
-	switch c.Choose(4) {
+	switch c.Choose(5) {
+	case 4: // change the mask of a node subnet (every node stays inside): the node subnets of the pools change
+		i := c.Choose(len(t.Subnets))
+		old := t.Subnets[i]
+		var nw string
+		switch {
+		case strings.HasSuffix(old, ".0/24"):
+			nw = strings.TrimSuffix(old, "/24") + "/25"
+		case strings.HasSuffix(old, ".0/25"):
+			nw = strings.TrimSuffix(old, "/25") + "/24"
+		default:
+			return "remask-skip"
+		}
+		t.Subnets[i] = nw
+		for _, p := range t.Pools {
+			for k, s := range p.NodeSubnets {
+				if s == old {
+					p.NodeSubnets[k] = nw
+				}
+			}
+		}
+		for k := range t.Nodes {
+			if t.Nodes[k].Subnet == old {
+				t.Nodes[k].Subnet = nw
+			}
+		}
+		return "remask"
 	case 0: // grow: add a range to a pool
 		p := t.Pools[c.Choose(len(t.Pools))]
 		t.addRange(c, p)
@@ -206,7 +233,7 @@ func (t *Topo) mutate(c *core.Choices) string {
 	}
 }
 
-// SubnetOfNode returns the node subnet a node lies in.
+// SubnetOfNode returns the node subnet a node lies in under the current (latest published) configuration.
 func (t *Topo) SubnetOfNode(name string) string {
 	for _, n := range t.Nodes {
 		if n.Name == name {
@@ -214,4 +241,21 @@ func (t *Topo) SubnetOfNode(name string) string {
 		}
 	}
 	return ""
+}
+
+// NodeIn says whether the node's address lies in one of the listed node subnets. Routability is judged by
+// containment, not by the spelling of the subnet, because a reload may change a node subnet's mask.
+func (t *Topo) NodeIn(name string, subnets []string) bool {
+	for _, n := range t.Nodes {
+		if n.Name != name {
+			continue
+		}
+		ip := net.ParseIP(n.IP)
+		for _, s := range subnets {
+			if _, cidr, err := net.ParseCIDR(s); err == nil && cidr.Contains(ip) {
+				return true
+			}
+		}
+	}
+	return false
 }
